@@ -65,9 +65,10 @@ type SliceV struct {
 
 // StructV is a struct value with lazily materialised fields.
 type StructV struct {
-	T    *types.Struct
-	F    []Value
-	lazy func(i int) Value
+	T      *types.Struct
+	F      []Value
+	lazy   func(i int) Value
+	Origin *smt.Term // the term this value was read from (nil once modified)
 }
 
 // ArrV is the contents of an array (or of a slice's backing region): a rope.
